@@ -110,7 +110,7 @@ def _fault_plan(r, enabled):
     return plan
 
 
-def gen_history(seed, idx, tier):
+def gen_history(seed, idx, tier, only_step_faults=False):
     r = gen.rng(seed, "c09", idx, "ops")
     rf = gen.rng(seed, "c09", idx, "faults")
     rs = gen.rng(seed, "c09", idx, "sched")
@@ -124,6 +124,8 @@ def gen_history(seed, idx, tier):
         p.glob = False
     ops = [{"op": "write", "path": s, "content": c} for s, c in sorted(p.sources.items())]
     enabled = [k for k in ("step", "driver", "kill") if rf.random() < 0.7]
+    if only_step_faults:
+        enabled = ["step"]
     n_inv = r.randint(1, 4)
     n_ops_total = r.randint(1, 6)
     kinds = []
@@ -222,7 +224,7 @@ def gen_history(seed, idx, tier):
         slots[r.randint(1, n_inv) if n_inv else 0].append(1)
     for i in range(n_inv):
         plan = _fault_plan(rf, enabled)
-        if plan.get("kill_after") is None and rf.random() < 0.08 and p.sources:
+        if plan.get("kill_after") is None and rf.random() < 0.08 and p.sources and not only_step_faults:
             s = rf.choice(sorted(p.sources))
             c = gen.content(rf, small=p.fmt in gen.BITMAP)
             p_after = rf.randint(0, 6)
@@ -477,6 +479,16 @@ def extra_coverage(cases, results):
                     if "out" in s and s.get("fault") and s["fault"]["kind"].startswith("torn") and s["status"] == ["exit", 0]:
                         probes["torn_planned_not_fired"] += 1
     return {"probes": probes, "single_fault_sweep": {"exhaustive_over": "every dirty edge x {fail_before, fail_after, torn EFBIG/SIGXFSZ at 0, half, size-1} + driver crash points + kill after every 2nd edge, for the base states of sweep_bases()", "cases": probes["sweep_cases"]}}
+
+
+def selfcheck(tier, seed):
+    """stub validation: the same histories through the real ninja (see checks/stub_validation.py)"""
+    from checks import stub_validation
+
+    total, dis = stub_validation.run(6 if tier == "quick" else 60, seed)
+    if dis:
+        raise orch.HarnessError("stub validation: SimNinja and the real ninja disagree: %s" % json.dumps(dis[:3])[:3000])
+    return total
 
 
 if __name__ == "__main__":
